@@ -88,8 +88,13 @@ class Sim13:
         self.rng = random.Random(sc.get("seed", 0))
         random.seed(sc.get("seed", 0))
         self.kex = fakeapi.KEX
-        self.peer_res = fakeapi.CLUSTER_PEERING
-        self.cluster = fakeapi.Cluster([fakeapi.NAMESPACES, fakeapi.CRDS, fakeapi.KEX, fakeapi.CLUSTER_PEERING])
+        # `"scope": "namespaced"`: operators restricted to the namespace `ns` (kopf run --namespace=ns), peering through the
+        # KopfPeering object of that namespace; default: cluster-wide operators and a ClusterKopfPeering
+        self.namespaced = sc.get("scope") == "namespaced"
+        self.peer_res = fakeapi.NS_PEERING if self.namespaced else fakeapi.CLUSTER_PEERING
+        self.peer_ns = NS if self.namespaced else None
+        self.peer_path = "/" + self.peer_res.plural
+        self.cluster = fakeapi.Cluster([fakeapi.NAMESPACES, fakeapi.CRDS, fakeapi.KEX, fakeapi.CLUSTER_PEERING, fakeapi.NS_PEERING])
         self.pname = sc.get("peering", "default")
         self.incs: list[dict] = []                 # incarnations
         self.by_inc: dict[int, dict] = {}
@@ -121,7 +126,7 @@ class Sim13:
                 return None
             if req["method"] != f.get("method", "PATCH") or self.now() < float(f.get("after", 0.0)):
                 return None
-            if f.get("res", "peering") == "peering" and "/clusterkopfpeerings" not in req["path"]:
+            if f.get("res", "peering") == "peering" and self.peer_path not in req["path"]:
                 return None
             return fakeapi.Fault("status", int(f.get("status", 503)))
         return rule
@@ -195,19 +200,34 @@ class Sim13:
                 await asyncio.sleep(hdelay)
             r["t_end"] = sim.now()
 
+        # `daemon_mode`: "obey" - the daemon polls its `stopped` flag (ends within 0.5 s of being asked); "cancel" - it never looks
+        # at the flag and waits for ever: only the CANCELLATION of its task (cancellation_timeout) ends it
+        dmode = self.sc.get("daemon_mode", "obey")
         if self.sc.get("daemon", True):
             @kopf.daemon("kopfexamples", id="d", registry=reg, cancellation_timeout=1.0)
             async def d(stopped: Any, **kwargs: Any) -> None:
                 r = rec_of("daemon", "d", kwargs)
                 if r is None:
                     raise asyncio.CancelledError()
+                r["mode"] = dmode
                 try:
+                    if dmode == "cancel":
+                        await asyncio.Event().wait()
                     while not stopped:
                         await stopped.wait(0.5)
                     r["stop_reason"] = repr(getattr(stopped, "reason", None))
                 finally:
                     r["t_end"] = sim.now()
                     r["muted_end"] = sim.inc() in sim.dead
+
+        # `timer: s`: a timer every s seconds on every object (timers are stopped by a pause like the daemons)
+        if self.sc.get("timer"):
+            @kopf.timer("kopfexamples", id="t", registry=reg, interval=float(self.sc["timer"]))
+            async def t(**kwargs: Any) -> None:
+                r = rec_of("timer", "t", kwargs)
+                if r is None:
+                    raise asyncio.CancelledError()
+                r["t_end"] = sim.now()
         return reg
 
     # ---- operator lifecycle ---------------------------------------------------------------------
@@ -223,8 +243,9 @@ class Sim13:
         nth = sum(1 for i in self.incs if i["name"] == name)
         # kopf's default identity is unique per process; with POD_ID (sticky) it survives restarts
         ident = spec.get("identity", name if self.sc.get("sticky_identities") else (name if nth == 0 else f"{name}-r{nth}"))
+        scope = dict(clusterwide=False, namespaces=[NS]) if self.namespaced else {}
         op = runner.Operator(self.cluster, self.build_registry(name), settings, identity=ident,
-                             priority=int(spec.get("priority", 0)), peering_name=self.pname, standalone=False)
+                             priority=int(spec.get("priority", 0)), peering_name=self.pname, standalone=False, **scope)
         self.live[name] = op
         info = {"name": name, "nth": nth, "identity": ident, "inc": op.n, "who": op.session.identity, "priority": int(spec.get("priority", 0)),
                 "lifetime": int(spec.get("lifetime", 60)), "t_start": self.now(), "t_stop_req": None, "t_stopped": None,
@@ -304,12 +325,12 @@ class Sim13:
         elif kind == "edit":
             c.edit(kex, NS, args[0], args[1])
         elif kind == "delete_peering":      # somebody deletes the peering object itself
-            c.delete(self.peer_res, None, self.pname)
+            c.delete(self.peer_res, self.peer_ns, self.pname)
         elif kind == "create_peering":
-            if c.get(self.peer_res, None, self.pname) is None:
-                c.create_raw(self.peer_res, None, self.pname, {})
+            if c.get(self.peer_res, self.peer_ns, self.pname) is None:
+                c.create_raw(self.peer_res, self.peer_ns, self.pname, {})
         elif kind == "ghost":       # a foreign actor writes into the peering status (merge-patch of `status`)
-            c.edit(self.peer_res, None, self.pname, {"status": args[0]})
+            c.edit(self.peer_res, self.peer_ns, self.pname, {"status": args[0]})
         elif kind == "ghost_rel":   # the same, `lastseen` given relative to now: {"id": {"age": s, ...}}
             st = {}
             for k, v in args[0].items():
@@ -318,9 +339,11 @@ class Sim13:
                     age = v.pop("age")
                     from ..sim import simloop
                     import datetime
-                    v["lastseen"] = (simloop.WALL.now(tz=datetime.timezone.utc) - datetime.timedelta(seconds=age)).isoformat()
+                    # `tz: minutes`: the writer stamps its record in a local time with that UTC offset (the same instant)
+                    tz = datetime.timezone(datetime.timedelta(minutes=int(v.pop("tz", 0))))
+                    v["lastseen"] = (simloop.WALL.now(tz=datetime.timezone.utc) - datetime.timedelta(seconds=age)).astimezone(tz).isoformat()
                 st[k] = v
-            c.edit(self.peer_res, None, self.pname, {"status": st})
+            c.edit(self.peer_res, self.peer_ns, self.pname, {"status": st})
         else:
             raise ValueError(f"unknown op {kind}")
         self.mark("op", op=[kind, *args])
@@ -338,7 +361,11 @@ class Sim13:
         if sc.get("pre_status") is not None:
             body["status"] = copy.deepcopy(sc["pre_status"])
         if not sc.get("no_peering_object"):
-            self.cluster.create_raw(self.peer_res, None, self.pname, body)
+            self.cluster.create_raw(self.peer_res, self.peer_ns, self.pname, body)
+        # `other_peerings: {name: status}`: other peering objects of the same kind (other peering neighbourhoods; not ours to
+        # worry about, whatever their names and whoever is in them)
+        for oname, ost in (sc.get("other_peerings") or {}).items():
+            self.cluster.create_raw(self.peer_res, self.peer_ns, oname, {"status": copy.deepcopy(ost)})
         for o in sc.get("objects", []):
             self.cluster.create_raw(self.kex, NS, o["name"], o.get("body", {"spec": {"x": 0}}))
         for ev in sorted(sc.get("timeline", []), key=lambda e: e[0]):
@@ -376,7 +403,7 @@ class Sim13:
     # ---- the trace ------------------------------------------------------------------------------
     def trace(self, t_end: float) -> dict:
         c = self.cluster
-        pk = (self.peer_res.key, None, self.pname)
+        pk = (self.peer_res.key, self.peer_ns, self.pname)
         phist = [{"t": h["t"], "rv": h["body"]["metadata"]["resourceVersion"], "event": h["event"],
                   "status": copy.deepcopy(h["body"].get("status"))} for h in c.history.get(pk, [])]
         khist = {}
@@ -387,13 +414,14 @@ class Sim13:
         reqs = []
         for r in c.requests:
             is_kex = "/kopfexamples" in r["path"]
-            is_peer = "/clusterkopfpeerings" in r["path"]
+            is_peer = self.peer_path in r["path"]
             if not (is_kex or is_peer):
                 continue
             rr = {"t": r["t"], "who": r["who"], "method": r["method"], "path": r["path"], "watch": bool(r["query"].get("watch")),
                   "res": "kex" if is_kex else "peering", "response": r.get("response") if isinstance(r.get("response"), (int, str)) else None}
             if r["method"] == "PATCH" and is_peer:
                 rr["payload"] = r.get("payload")
+                rr["injected"] = "fault" in r          # answered by an injected fault of the scenario (the environment)
             if "listed" in r:
                 rr["listed"] = r["listed"]
             w = r.get("watch")
@@ -495,24 +523,40 @@ def installed(sim: Sim13) -> Iterator[None]:
             cfs.pop(task, None)
             rec["t1"] = ticks(sim.now())
 
-    async def clean(**kw: Any) -> None:
-        rec = cur()
-        if rec is not None:
-            rec["cleaned"] = [str(p.identity) for p in kw["peers"]]
-        await o_clean(**kw)
+    # NB: what a call cleans / whether it touches is read off the REQUESTS it issues (`note_patch` below, at the API client), not
+    # off which helper of `peering` it went through: the code may inline or split `clean()` / `touch()` as it likes.
+    async def clean(*a: Any, **kw: Any) -> Any:
+        return await o_clean(*a, **kw)
 
-    async def touch(**kw: Any) -> None:
+    async def touch(*a: Any, **kw: Any) -> Any:
+        return await o_touch(*a, **kw)
+
+    def note_patch(payload: Any) -> bool:
+        """A PATCH of OUR peering object is being issued by the current task: if that is inside a `process_peering_event`
+        call, record what it asks for (the identities it removes = `cleaned`, in the order of the requests; the own record
+        written = the self-touch). Returns whether it is a self-touch of a call."""
         rec = cur()
-        if rec is not None:
-            rec["touched"] = True
-        sim.touches.append({"t": ticks(sim.now()), "inc": sim.inc(), "lifetime_arg": kw.get("lifetime"),
-                            "in_call": rec is not None})
-        if rec is not None:
-            selftouching.add(asyncio.current_task())
-        try:
-            await o_touch(**kw)
-        finally:
-            selftouching.discard(asyncio.current_task())
+        st = payload.get("status") if isinstance(payload, dict) else None
+        me = (sim.by_inc.get(sim.inc()) or {}).get("identity")
+        if isinstance(st, dict) and me in st:
+            # every write of an operator's own record: keep-alive, withdrawal (null), self-touch of a call
+            sim.touches.append({"t": ticks(sim.now()), "inc": sim.inc(), "lifetime_arg": 0 if st[me] is None else None,
+                                "in_call": rec is not None})
+        if rec is None:
+            return False
+        if not isinstance(st, dict):
+            rec.setdefault("odd_patches", []).append(copy.deepcopy(payload))
+            return False
+        if rec["now2"] is None:
+            # before the verdict and the sleep: records are removed
+            rec["cleaned"] = (rec["cleaned"] or []) + [str(k) for k in st]
+            if any(v is not None for v in st.values()):
+                rec.setdefault("odd_patches", []).append(copy.deepcopy(payload))
+            return False
+        rec["touched"] = True
+        if list(st) != [rec["me"]]:
+            rec.setdefault("odd_patches", []).append(copy.deepcopy(payload))
+        return True
 
     async def a_sleep(delays: Any, wakeup: Any = None) -> Any:
         rec = cur()
@@ -616,9 +660,22 @@ def installed(sim: Sim13) -> Iterator[None]:
     # that much later (one slow request: "every delivery timing of ... keep-alives")
     slow_self = {k: float(v) for k, v in (sim.sc.get("selftouch_latency") or {}).items()}
 
+    own_url = f"{sim.peer_path}/{sim.pname}"
+
     async def request(self: Any, method: str, url: str, *a: Any, **k: Any) -> Any:
         name = self.identity.split("#")[0].split("-r")[0]
-        if method.upper() == "PATCH" and "/clusterkopfpeerings" in url:
+        if method.upper() == "PATCH" and sim.peer_path in url:
+            is_selftouch = url.split("?")[0].endswith(own_url) and note_patch(k.get("json", a[0] if a else None))
+            if is_selftouch:
+                selftouching.add(asyncio.current_task())
+            try:
+                return await request_peering_patch(self, name, method, url, *a, **k)
+            finally:
+                selftouching.discard(asyncio.current_task())
+        return await o_request(self, method, url, *a, **k)
+
+    async def request_peering_patch(self: Any, name: str, method: str, url: str, *a: Any, **k: Any) -> Any:
+        if True:
             if after.get(name) and not self.dead:
                 # the server applies the PATCH at once, the RESPONSE takes the time: a client cancelled meanwhile has written
                 c = self.cluster
@@ -642,8 +699,8 @@ def installed(sim: Sim13) -> Iterator[None]:
     o_serve = fakeapi.FakeSession._serve
 
     def _serve(self: Any, req: dict, method: str, path: str, query: dict, *a: Any, **k: Any) -> Any:
-        pk = (sim.peer_res.key, None, sim.pname)
-        is_peer_patch = method == "PATCH" and "/clusterkopfpeerings/" in path
+        pk = (sim.peer_res.key, sim.peer_ns, sim.pname)
+        is_peer_patch = method == "PATCH" and path.endswith(own_url)
         before = copy.deepcopy((sim.cluster.objects.get(pk) or {}).get("status")) if is_peer_patch else None
         payload0 = a[0] if a else k.get("payload")
         rv_before = str((sim.cluster.objects.get(pk) or {}).get("metadata", {}).get("resourceVersion")) if is_peer_patch else None
@@ -742,6 +799,9 @@ def _iso(t_ticks: int, fmt: str = "full") -> str:
         return dt.replace(tzinfo=None).isoformat() + "Z"
     if fmt == "space":
         return dt.replace(tzinfo=None).isoformat(sep=" ") + "+00:00"
+    if isinstance(fmt, str) and fmt.startswith("tz"):
+        # the same instant written in a local time with a UTC offset of that many minutes ("tz120" = +02:00, "tz-330" = -05:30)
+        return dt.astimezone(datetime.timezone(datetime.timedelta(minutes=int(fmt[2:])))).isoformat()
     return dt.isoformat()
 
 
@@ -788,26 +848,10 @@ def run_direct(batch: dict, wall_limit: float = 60.0) -> dict:
 
         async def patch_obj(**kw: Any) -> Any:
             state["patches"].append({"t": ticks(loop.time()), "payload": json.loads(json.dumps(dict(kw["patch"]))),
-                                     "name": kw.get("name"), "by": state.get("by")})
+                                     "name": kw.get("name"), "fns": len(getattr(kw["patch"], "fns", []) or []),
+                                     "phase": "pre" if state["now2"] is None else "post"})
             await asyncio.sleep(state["latency"] / TPS)
             return {}, None
-
-        o_clean, o_touch = peering.clean, peering.touch
-
-        async def clean(**kw: Any) -> None:
-            state["by"] = "clean"
-            state["clean_args"].append([str(p.identity) for p in kw["peers"]])
-            try:
-                await o_clean(**kw)
-            finally:
-                state["by"] = None
-
-        async def touch(**kw: Any) -> None:
-            state["by"] = "touch"
-            try:
-                await o_touch(**kw)
-            finally:
-                state["by"] = None
 
         async def a_sleep(delays: Any, wakeup: Any = None) -> Any:
             ds = list(delays) if not isinstance(delays, (int, float)) and delays is not None else [delays]
@@ -827,7 +871,6 @@ def run_direct(batch: dict, wall_limit: float = 60.0) -> dict:
 
         peering.patching = _Proxy(o_patching, patch_obj=patch_obj)  # type: ignore[assignment]
         peering.aiotime = _Proxy(o_aiotime, sleep=a_sleep)  # type: ignore[assignment]
-        peering.clean, peering.touch = clean, touch  # type: ignore[assignment]
         try:
             for case in batch["cases"]:
                 await asyncio.sleep(case.get("gap", 1) / TPS)
@@ -837,12 +880,15 @@ def run_direct(batch: dict, wall_limit: float = 60.0) -> dict:
                 settings.peering.lifetime = case.get("my_lifetime", 60)
                 now = ticks(loop.time())
                 status = build_status(case, now)
-                body: dict[str, Any] = {"metadata": {"name": "default" if case.get("name_ok", True) else "other"}}
+                # (a foreign peering object: `name` of the case, e.g. one that merely begins like ours)
+                body: dict[str, Any] = {"metadata": {"name": "default" if case.get("name_ok", True) else case.get("name", "other")}}
+                if case.get("rv") is not None:
+                    body["metadata"]["resourceVersion"] = str(case["rv"])
                 if status != "__missing__":
                     body["status"] = status
                 toggle = None if case["toggle"] is None else RecToggle(bool(case["toggle"]))
                 state.clear()
-                state.update({"patches": [], "clean_args": [], "by": None, "latency": case.get("latency", 1), "now2": None, "delays": None, "turned": [],
+                state.update({"patches": [], "latency": case.get("latency", 1), "now2": None, "delays": None, "turned": [],
                               "toggle": toggle, "slept": 0, "unslept": "n/a", "toggle_at_sleep": None})
                 pressure = asyncio.Event()
                 waker = None
@@ -859,20 +905,25 @@ def run_direct(batch: dict, wall_limit: float = 60.0) -> dict:
                     err = ERR_ENUM.get(type(e).__name__, "other:" + type(e).__name__)
                 if waker is not None:
                     waker.cancel()
+                # what the call asked the API for, read off its PATCHes (not off which helper of `peering` issued them): those BEFORE
+                # the sleep remove records (`cleaned`: removals only), the one AFTER an undisturbed sleep writes the own record
                 cleaned: list[str] = []
                 touch_payload = None
                 n_clean = 0
                 clean_ok = True
+                clean_rv: list = []
                 for p in state["patches"]:
-                    stp = (p["payload"].get("status") or {})
-                    if p["by"] == "clean":
+                    stp = p["payload"].get("status")
+                    if not isinstance(stp, dict) or p["name"] != "default" or p["fns"] or set(p["payload"]) - {"status", "metadata"}:
+                        clean_ok = False
+                    elif p["phase"] == "pre":
                         cleaned += list(stp.keys())
                         n_clean += 1
-                        clean_ok = clean_ok and all(v is None for v in stp.values()) and p["name"] == "default"
+                        clean_ok = clean_ok and all(v is None for v in stp.values())
+                        clean_rv.append((p["payload"].get("metadata") or {}).get("resourceVersion"))
                     else:
                         touch_payload = stp
-                if [x for a in state["clean_args"] for x in a] != cleaned:
-                    clean_ok = False
+                        clean_ok = clean_ok and list(stp.keys()) == [case["me"]]
                 delays = state["delays"]
                 offgrid = False
                 dt: list[int] | None = None
@@ -884,7 +935,8 @@ def run_direct(batch: dict, wall_limit: float = 60.0) -> dict:
                             offgrid = True
                         dt.append(int(round(x)))
                 results.append({"now": now, "status": status, "abs_status": abstract_status(status) if status != "__missing__" else [],
-                                "error": err, "cleaned": cleaned, "n_clean_calls": n_clean, "clean_ok": clean_ok, "turned": state["turned"],
+                                "error": err, "cleaned": cleaned, "n_clean_calls": n_clean, "clean_ok": clean_ok, "clean_rv": clean_rv,
+                                "turned": state["turned"], "n_patches_all": len(state["patches"]),
                                 "paused": state["toggle_at_sleep"], "paused_end": None if toggle is None else toggle.is_on(),
                                 "delays": dt, "now2": state["now2"] if state["now2"] is not None else now,
                                 "reached_sleep": state["now2"] is not None, "slept": state["slept"],
@@ -892,7 +944,6 @@ def run_direct(batch: dict, wall_limit: float = 60.0) -> dict:
                                 "touch_payload": touch_payload, "offgrid": offgrid, "n_patches": len(state["patches"])})
         finally:
             peering.patching, peering.aiotime = o_patching, o_aiotime  # type: ignore[assignment]
-            peering.clean, peering.touch = o_clean, o_touch  # type: ignore[assignment]
 
     simloop.run_sim(main, wall_limit=wall_limit)
     return {"results": results}
